@@ -570,7 +570,10 @@ fn execute_inner(h: &History, want: &str, rep: &mut Report, start: Option<ExecSt
     let mut n_bytes = 0u64;
     let mut n_msgs = 0u64;
     let mut since_change_r = 0u8; // messages since the rising latch was last set (class only)
-    let mut notes_undefined = false;
+    // C18 judges the controller outputs only (note tracking is C04's subject): the note outputs of the reference are
+    // re-synchronised with what is observed from the start
+    let mut notes_undefined = want == "C18";
+    let mut prev_out: Option<Out> = None;
     let mut observed_gate_mode = start_observed;
     let mut gate_seen = start_gate; // gate() as read after the previous byte
     for (i, op) in h.ops.iter().enumerate() {
@@ -640,6 +643,17 @@ fn execute_inner(h: &History, want: &str, rep: &mut Report, start: Option<ExecSt
                 since_change_r = since_change_r.saturating_add(1);
                 rep.class(("byte", cls.0, cls.1));
                 let got = call!(read_out(&m), i);
+                if want == "C18" {
+                    // "no other controller number changes anything": a control change (other than All Notes Off) or a pitch
+                    // bend on any channel must leave gate / note number / velocity where they were
+                    if let (Some(prev), Effect::Controller | Effect::ControllerIgnored | Effect::ResetControllers | Effect::PitchBend) = (prev_out, eff) {
+                        if prev.gate != got.gate || prev.note != got.note || prev.vel.to_bits() != got.vel.to_bits() {
+                            rep.evaluations += n_eval;
+                            return Some(mk("C18", "controller-moves-note-outputs", format!("after byte {:#04x} ({:?}) the note outputs moved: gate {} -> {}, note {} -> {}, velocity {} -> {}", b, eff, prev.gate, got.gate, prev.note, got.note, prev.vel, got.vel), i));
+                        }
+                    }
+                    prev_out = Some(got);
+                }
                 gate_seen = got.gate;
                 if observed_gate_mode {
                     continue;
@@ -811,7 +825,8 @@ pub fn gen_notes(r: &mut Rng, n_msgs: usize, poll_rate: f64, strict_polls: bool)
 
 /// `allow_overflow`: do not keep the stream within 32 outstanding note-ons (C05 has no such limit)
 pub fn gen_notes_x(r: &mut Rng, n_msgs: usize, poll_rate: f64, strict_polls: bool, allow_overflow: bool) -> History {
-    let channel_arg: u8 = if r.chance(0.15) { 16 + r.below(240) as u8 } else { r.below(16) as u8 };
+    // (constructor arguments above 15 are C20's subject: channel twins and the clamp sweep)
+    let channel_arg: u8 = r.below(16) as u8;
     let ch = channel_arg.min(15);
     let pool_size = *r.pick(&[1usize, 2, 3, 3, 12, 12, 128]);
     let base = r.below(128 - pool_size as u64 + 1) as u8;
@@ -1344,7 +1359,7 @@ pub fn gen_pitch_bends(ch: u8, foreign: bool, descending: bool) -> History {
 
 /// controllers interleaved with note traffic (C18: neither disturbs the other)
 pub fn gen_controllers_and_notes(r: &mut Rng, n: usize) -> History {
-    let channel_arg = if r.chance(0.1) { 200 } else { r.below(16) as u8 };
+    let channel_arg = r.below(16) as u8;
     let ch = channel_arg.min(15);
     let mut e = Emit::new();
     let mut held = 0usize;
@@ -1630,7 +1645,7 @@ pub fn run(ctx: &Ctx, prop: &str) -> Report {
                 let mut r = Rng::derive(ctx.seed, "midi.cc_notes", s as u64);
                 for j in 0..(n_hist + shards - 1) / shards {
                     let h = if j % 3 == 2 {
-                        let c = if r.chance(0.1) { 99 } else { r.below(16) as u8 };
+                        let c = r.below(16) as u8;
                         gen_rpn_nrpn(&mut r, c)
                     } else if j % 7 == 3 {
                         // controllers while the note buffer fills up and overruns (they must not care)
@@ -1644,9 +1659,9 @@ pub fn run(ctx: &Ctx, prop: &str) -> Report {
                     } else {
                         gen_controllers_and_notes(&mut r, if small { 100 } else { 400 })
                     };
-                    // controllers must not disturb notes and vice versa: all getters are compared
-                    if let Some(mut v) = execute(&h, "ALL", &mut rep) {
-                        v.signature = v.signature.replace("C04:", "C18:");
+                    // controllers must not disturb notes (clause controller-moves-note-outputs) and notes must not disturb
+                    // controllers (controller getters compared after every byte); note tracking itself is C04's subject
+                    if let Some(v) = execute(&h, "C18", &mut rep) {
                         rep.violate(v);
                     }
                     if s == 0 && j < 2 {
@@ -1657,7 +1672,7 @@ pub fn run(ctx: &Ctx, prop: &str) -> Report {
             });
             stage("midi.controllers_interleaved_with_notes", r, &mut rep, t);
             let t = std::time::Instant::now();
-            stage("midi.repeat_storms", repeat_storms(ctx, "ALL"), &mut rep, t);
+            stage("midi.repeat_storms", repeat_storms(ctx, "C18"), &mut rep, t);
             if !small {
                 rep.floor("midi.c18.channels_swept", 16);
                 rep.floor("midi.effect.ResetControllers", 1000);
